@@ -9,7 +9,7 @@ ALL_KINDS = ['raw', 'slru', '2q', 'arc', 'wtlfu']
 # property -> (kinds, PROP names evaluated by the trace spec, harness flags, level)
 LIST_PROPS = {
     'C01': dict(kinds=ALL_KINDS, flags=[]),
-    'C02': dict(kinds=ALL_KINDS, flags=[], variants=[('tracked', 'std'), ('string', 'std'), ('string', 'zero'), ('tracked', 'zero')]),
+    'C02': dict(kinds=ALL_KINDS, flags=[], variants=[('tracked', 'std'), ('string', 'std'), ('tracked', 'zero')]),
     'C03': dict(kinds=ALL_KINDS, flags=['--audit', '--quarantine', '--drop']),
     'C04': dict(kinds=ALL_KINDS, flags=['--tok', '--drop']),
     'C05': dict(kinds=ALL_KINDS, flags=[]),
